@@ -162,6 +162,11 @@ def classify_death(rc, stderr):
     if m:
         loc = re.search(r"(\S+\.(?:cpp|c|h)):(\d+)", stderr)
         return "ubsan", (loc.group(0) if loc else "?") + " " + m.group(1)[:80]
+    m = re.search(r"WARNING: ThreadSanitizer: ([a-zA-Z -]+)", stderr)
+    if m:
+        frames = re.findall(r"#\d+ (\S+) (\S+)", stderr)
+        where = next((f for f, loc in frames if "libtfhe" in loc or "/src/libtfhe" in loc or "/repo/" in loc), frames[0][0] if frames else "?")
+        return "tsan:%s" % m.group(1).strip().replace(" ", "-"), where
     m = re.search(r"ERROR: LeakSanitizer", stderr)
     if m:
         return "lsan:leak", "?"
